@@ -68,6 +68,11 @@ def run(repo, tier):
                 continue
             want = cmass(t['NEUTRAL_FRAGMENT_COMPOSITION_ADJUSTMENTS'][ion], at)
             checks.append((name, abs(ex(t[mt][ion]) - want) <= F('1e-9'), float(want), t[mt][ion], dict(ion=ion)))
+    # the averagine mass is the monoisotopic mass of the averagine ratios: estimate_comp(m) = ratios x m / that mass then weighs m
+    a = dump_globals({'peptacular.constants': ['AVERAGINE_RATIOS'], 'peptacular.chem.chem_constants': ['ISOTOPIC_AVERAGINE_MASS']}, repo)
+    want = sum((ex(v) * ex(t['ISOTOPIC_ATOMIC_MASSES'][k]) for k, v in a['AVERAGINE_RATIOS'].items()), F(0))
+    checks.append(('averagine mass == monoisotopic mass of the averagine ratios', abs(ex(a['ISOTOPIC_AVERAGINE_MASS']) - want) <= F('1e-9'),
+                   float(want), a['ISOTOPIC_AVERAGINE_MASS'], dict(table='AVERAGINE_RATIOS')))
     for name, ok, exp, obs, inp in checks:
         out['obligations'] += 1
         nm = f'part-tables#ground[{name}]'
